@@ -154,13 +154,17 @@ where
 {
     fn drop(&mut self) {
         if let Some(shard) = self.shard.take() {
-            let mut shard = shard.write();
-            match shard.entry(self.hash(), |p| self.key() == p.key(), |p| p.hash()) {
-                HashTableEntry::Occupied(o) => {
-                    o.remove();
+            let removed = {
+                let mut shard = shard.write();
+                match shard.entry(self.hash(), |p| self.key() == p.key(), |p| p.hash()) {
+                    // Only remove the piece this reference was created for. A newer piece of the same key
+                    // that has been enqueued meanwhile must stay visible until its own reference is dropped.
+                    HashTableEntry::Occupied(o) if std::ptr::eq(o.get().key(), self.piece.key()) => Some(o.remove().0),
+                    _ => None,
                 }
-                HashTableEntry::Vacant(_) => {}
-            }
+            };
+            // Deallocate out of the lock critical section.
+            drop(removed);
         }
     }
 }
